@@ -31,6 +31,7 @@ type genEvent struct {
 	Line   []byte
 	Op     string
 	Kids   int
+	Pause  bool // reader sleeps PauseMs after this event
 }
 
 type engine struct {
@@ -41,6 +42,9 @@ type engine struct {
 	gen      [][]genEvent // per source
 	byID     map[string]*genEvent
 	bySrcOff map[[2]uint64]string
+
+	kidMu  sync.Mutex
+	kidIDs map[*pipeline.Event]string
 
 	// pool monitor (C05)
 	pmu         sync.Mutex
@@ -57,6 +61,24 @@ func (e *engine) idByOffset(src uint64, off int64) string {
 		return id
 	}
 	return fmt.Sprintf("<unknown %d/%d>", src, off)
+}
+
+// stableID identifies an event without trusting its JSON tree: pooled events
+// by (source, offset); split children (fresh objects, never pooled) by pointer,
+// their id being read the first time the output sees them (their parent cannot
+// have been committed before that).
+func (e *engine) stableID(ev *pipeline.Event) string {
+	if ev.IsChildKind() {
+		e.kidMu.Lock()
+		defer e.kidMu.Unlock()
+		id, ok := e.kidIDs[ev]
+		if !ok {
+			id = eventID(ev)
+			e.kidIDs[ev] = id
+		}
+		return id
+	}
+	return e.idByOffset(uint64(ev.SourceID), ev.Offset)
 }
 
 func (e *engine) poolViolation(sig, what string, w any) {
@@ -98,13 +120,14 @@ func (e *engine) generate() {
 	e.gen = make([][]genEvent, e.cs.Sources)
 	for s := 0; s < e.cs.Sources; s++ {
 		off := int64(0)
+		pat := 0
 		for i := 0; i < e.cs.PerSource; i++ {
 			g := genEvent{ID: fmt.Sprintf("s%d-%d", s+1, i+1), Src: uint64(s + 1)}
 			if e.cs.Streams > 0 {
 				g.Stream = string(rune('a' + rng.Intn(e.cs.Streams)))
 			}
 			g.Op = pick(rng, e.cs.OpWeights)
-			m := map[string]any{"id": g.ID, "op": g.Op, "op2": pick(rng, e.cs.OpWeights)}
+			m := map[string]any{"id": g.ID, "op": g.Op, "op2": pick(rng, e.cs.OpWeights), "jm": "y"}
 			if g.Stream != "" {
 				m["stream"] = g.Stream
 			}
@@ -117,11 +140,47 @@ func (e *engine) generate() {
 			default:
 				m["msg"] = "N:" + g.ID + ";"
 			}
-			if rng.Intn(100) < e.cs.SplitPct {
+			kidOps := map[string]int{"pass": 8, "discard": 2}
+			split := rng.Intn(100) < e.cs.SplitPct
+			if n := len(e.cs.Pattern); n > 0 {
+				// pattern-driven: skip pause tokens, they mark the previous event
+				for e.cs.Pattern[pat%n] == "P" {
+					if len(e.gen[s]) > 0 {
+						e.gen[s][len(e.gen[s])-1].Pause = true
+					}
+					pat++
+				}
+				tok := e.cs.Pattern[pat%n]
+				pat++
+				g.Op, split = "pass", false
+				m["op2"] = "pass"
+				m["msg"] = "N:" + g.ID + ";"
+				switch tok {
+				case "S":
+					m["msg"] = "S:" + g.ID + ";"
+				case "C":
+					m["msg"] = "C:" + g.ID + ";"
+				case "X":
+					delete(m, "jm")
+				case "D":
+					g.Op = "discard"
+				case "B":
+					g.Op = "break"
+				case "H":
+					g.Op = "hold"
+				case "L":
+					g.Op = "collapse"
+				case "K":
+					split = true
+					kidOps = map[string]int{"discard": 1}
+				}
+				m["op"] = g.Op
+			}
+			if split {
 				g.Kids = 1 + rng.Intn(4)
 				var arr []any
 				for k := 0; k < g.Kids; k++ {
-					arr = append(arr, map[string]any{"id": fmt.Sprintf("%s.c%d", g.ID, k), "pid": g.ID, "op": pick(rng, map[string]int{"pass": 8, "discard": 2}), "msg": "N:kid;"})
+					arr = append(arr, map[string]any{"id": fmt.Sprintf("%s.c%d", g.ID, k), "pid": g.ID, "op": pick(rng, kidOps), "msg": "N:kid;"})
 				}
 				m["arr"] = arr
 			}
@@ -163,7 +222,7 @@ func RunCase(cs Case, trace func(any)) Result {
 	if cs.Trace {
 		rec.trace = trace
 	}
-	eng := &engine{cs: cs, rec: rec, outstanding: map[*pipeline.Event]int64{}, sizeClasses: map[int]bool{}}
+	eng := &engine{cs: cs, rec: rec, outstanding: map[*pipeline.Event]int64{}, sizeClasses: map[int]bool{}, kidIDs: map[*pipeline.Event]string{}}
 	cur = eng
 	eng.generate()
 
@@ -309,7 +368,7 @@ func RunCase(cs Case, trace func(any)) Result {
 				seq := eng.ctl.In(pipeline.SourceID(g.Src), fmt.Sprintf("src%d", g.Src), pipeline.NewOffsets(g.Off, nil), g.Line, false, nil)
 				rec.add(Rec{K: "in.ret", ID: g.ID, Src: g.Src, Off: g.Off, Seq: seq})
 				n++
-				if cs.PauseEvery > 0 && n%cs.PauseEvery == 0 {
+				if (cs.PauseEvery > 0 && n%cs.PauseEvery == 0) || g.Pause {
 					time.Sleep(time.Duration(cs.PauseMs) * time.Millisecond)
 				}
 			}
@@ -317,6 +376,16 @@ func RunCase(cs Case, trace func(any)) Result {
 	}
 	readersDone := make(chan struct{})
 	go func() { wg.Wait(); close(readersDone) }()
+	earlyStop := make(chan struct{})
+	if cs.StopAfterMs > 0 {
+		go func() {
+			time.Sleep(time.Duration(cs.StopAfterMs) * time.Millisecond)
+			rec.add(Rec{K: "stop.call"})
+			p.Stop()
+			rec.add(Rec{K: "stop.ret"})
+			close(earlyStop)
+		}()
+	}
 
 	// ---- wait for quiescence, deciding on logical progress ----
 	// progress = number of events returned to the pool. A wedge is declared
@@ -329,6 +398,8 @@ func RunCase(cs Case, trace func(any)) Result {
 	zeroSamples := 0
 	readersFinished := false
 	wedged := false
+	stoppedEarly := false
+	heartbeatStalled := false
 	for {
 		select {
 		case <-readersDone:
@@ -355,8 +426,22 @@ func RunCase(cs Case, trace func(any)) Result {
 			wedged = true
 			break
 		}
-		if time.Since(lastWallProgress) > 40*time.Second && tick == lastProgressTick {
-			res.Inconclusive = "no progress for 40 s and the streamer heartbeat does not tick"
+		if cs.StopAfterMs > 0 {
+			select {
+			case <-earlyStop:
+				// stopped on purpose: nothing more will be finalized
+				stoppedEarly = true
+			default:
+			}
+			if stoppedEarly {
+				time.Sleep(50 * time.Millisecond)
+				break
+			}
+		}
+		if time.Since(lastWallProgress) > 20*time.Second && tick == lastProgressTick {
+			// the heartbeat sleeps 200 ms per tick: 20 s without a single tick is
+			// not load, the heartbeat goroutine itself is stuck
+			heartbeatStalled = true
 			wedged = true
 			break
 		}
@@ -372,8 +457,23 @@ func RunCase(cs Case, trace func(any)) Result {
 		time.Sleep(10 * time.Millisecond) // late duplicates
 	}
 	if wedged {
-		res.Dump = p.VerifDump()
-		res.StreamState = p.VerifStreamerState()
+		// the dump takes the streamer's locks: if they are held forever (deadlock)
+		// it never returns, so it runs aside with a deadline
+		dumped := make(chan struct{})
+		var dump string
+		var state any
+		go func() {
+			dump = p.VerifDump()
+			state = p.VerifStreamerState()
+			close(dumped)
+		}()
+		select {
+		case <-dumped:
+			res.Dump, res.StreamState = dump, state
+		case <-time.After(3 * time.Second):
+			res.Dump = "state dump did not return within 3 s: the streamer's locks are held"
+			res.Stats["dump_blocked"] = 1
+		}
 	}
 	eng.pmu.Lock()
 	outstandingEnd := len(eng.outstanding)
@@ -381,12 +481,20 @@ func RunCase(cs Case, trace func(any)) Result {
 	rawInUse := p.VerifPoolRawInUse()
 	procCount := p.VerifProcCount()
 
-	stopped := make(chan struct{})
-	go func() { p.Stop(); close(stopped) }()
-	select {
-	case <-stopped:
-	case <-time.After(15 * time.Second):
-		res.Stats["stop_hung"] = 1
+	if heartbeatStalled {
+		res.Stats["heartbeat_stalled"] = 1
+	}
+	if stoppedEarly {
+		res.Stats["stopped_early"] = 1
+		res.Stats["quiescent"] = 0
+	} else if cs.StopAfterMs == 0 {
+		stopped := make(chan struct{})
+		go func() { p.Stop(); close(stopped) }()
+		select {
+		case <-stopped:
+		case <-time.After(15 * time.Second):
+			res.Stats["stop_hung"] = 1
+		}
 	}
 
 	log := rec.snapshot()
